@@ -79,7 +79,7 @@ def check(run):
     rnd = random.Random(run.seed * 17 + 2)
     thorough = run.tier == 'thorough'
     graphs, cases, tabs, kinds = [], [], [], []
-    for n in range(600 if thorough else 120):
+    for n in range(3000 if thorough else 120):
         inex = [None, None, None, None, 'rn_odometry', 'rn_landmark', 'se2_offset'][n % 7]
         g = GG.gen_real_graph(rnd, extreme=(n % 3 != 0), inexpressible=inex)
         tab = GG.SymTab()
